@@ -213,6 +213,20 @@ CHECKS = {
         'technique': 'TLA+ design model (EventBus) exhaustively checked + TLC-generated histories executed on the real dispatcher with '
                      'step-wise TLC trace validation (TraceBus)',
     },
+    'C19': {
+        'text': 'Design model Lifecycle.tla walks the ordered steps of Proxy.setup / shutdown over the configuration space (1..2 listening '
+                'addresses, fixed or OS-assigned primary port, 0..3 additional ports fixed or OS-assigned, Unix socket, pid / port '
+                'files: 144 valid configurations) and TLC checks Up, Down and the liveness property ReachesUpThenDown. For sampled '
+                'configurations x execution modes (local-threadless, remote-threadless, threaded) a REAL embedded Proxy is set up and shut '
+                'down; the facts are observed from outside its bookkeeping (the listening sockets of the process from /proc/net/tcp{,6} '
+                'matched against /proc/self/fd, connect() probes, multiprocessing children, files on disk) and TLC (TraceLifecycle) '
+                'decides: endpoints = hosts x ports and all accept, reported primary = bound primary and first in the port file, '
+                'reported ports = bound ports exactly, after shutdown nothing accepts, no socket, no child, no file.',
+        'design_ref': 'DESIGN.md section 6, C19',
+        'note': 'Trusted: TLC, the kernel, /proc. Loopback addresses only; one acceptor and worker per run; ~40 (quick) configurations.',
+        'technique': 'TLA+ lifecycle model over the configuration space + TLC validation (TraceLifecycle) of facts observed around real '
+                     'Proxy.setup()/shutdown() runs',
+    },
     'C20': {
         'text': 'Design model Idle.tla (integer clock, last client-side traffic, pending output behind a full client wire, periodic sweep) '
                 'checked exhaustively by TLC for ReapedOnlyIfIdle (action property) and NeverWithPending over all timed traces with '
